@@ -91,6 +91,9 @@ int init_peer(struct peer *p, bool is_local_connection, struct eventloop *loop)
 	}
 	p->name = NULL;
 	p->user_name = NULL;
+	p->fetch_groups = 0;
+	p->set_groups = 0;
+	p->call_groups = 0;
 	p->is_local_connection = is_local_connection;
 	p->loop = loop;
 	INIT_LIST_HEAD(&p->next_peer);
